@@ -32,16 +32,16 @@ def parseJsonNumber (s : String) : Option (Option Int) :=
     let v : Int := digitsNat ds
     some (some (if neg then -v else v))
 
-/-- `big.Int.SetString(s, 10)`: optional sign, at least one digit. -/
-def parseBigInt10 (cs : List Char) : Option Int :=
-  let (neg, ds) := match cs with
-    | '-' :: r => (true, r)
-    | '+' :: r => (false, r)
-    | r => (false, r)
+/-- Digits (at least one) with a sign already stripped. -/
+def parseDigitsInt (neg : Bool) (ds : List Char) : Option Int :=
   if !allDigits ds then none
-  else
-    let v : Int := digitsNat ds
-    some (if neg then -v else v)
+  else some (if neg then -(digitsNat ds : Int) else (digitsNat ds : Int))
+
+/-- `big.Int.SetString(s, 10)`: optional sign, at least one digit. -/
+def parseBigInt10 : List Char → Option Int
+  | '-' :: r => parseDigitsInt true r
+  | '+' :: r => parseDigitsInt false r
+  | r => parseDigitsInt false r
 
 /-- `strings.SplitN(data, " ", 2)`. -/
 def splitFirstSpace : List Char → Option (List Char × List Char)
